@@ -8,6 +8,7 @@
 mod util;
 mod gal;
 mod c01;
+mod c03;
 mod c15;
 mod sm;
 mod smgen;
@@ -135,6 +136,28 @@ fn main() {
             header = "Require Import Verif.Run.EvalProps.";
             ctype = "smcase";
             runner = smgen::runner_for(&args.prop);
+        }
+        "C03" => {
+            if args.replay.is_none() {
+                inputs.extend(c03::generate(&mut rng, args.n / 2, args.thorough));
+                let mut k = smgen::default_knobs();
+                k.cup = Some(true); k.forged_pct = 5; k.update_pct = 60; k.bad_url_pct = 5;
+                for _ in 0..(args.n / 2) { inputs.push(smgen::gen_sm(&mut rng, &k)); }
+            }
+            for i in &inputs {
+                if i["kind"] == "sm" {
+                    let mut c = smgen::run_input(i);
+                    c.gallina = format!("K03Sm ({})", c.gallina);
+                    w.push(c);
+                } else {
+                    let mut c = c03::run_input(i);
+                    c.gallina = format!("K03 ({})", c.gallina);
+                    w.push(c);
+                }
+            }
+            header = c03::HEADER;
+            ctype = "c03any";
+            runner = "run_c03any";
         }
         "C15" => {
             if args.replay.is_none() {
